@@ -133,7 +133,7 @@ def run(ctx):
         return
     core.build_harness(bins=["solve"])
     rng = ctx.rng
-    progs, items = sc.fragment_items(rng, ctx.n(40, 700), 3, 3, 5)
+    progs, items = sc.fragment_items(rng, ctx.n(30, 600), 3, 3, 5, extra=[(pg.shape_andor, ctx.n(160, 2500))])
     items += wide_items(rng, ctx.n(8, 40))
     items += corpus_items(rng, ctx.n(50, 2000), ctx.n(1, 3))
     mism, perr = sc.run_items(items, cpu=ctx.n(4, 6), timeout=ctx.n(600, 3000))
